@@ -46,7 +46,7 @@ def t_flagop_cond(E):
     tf = E.opaque("tf")
     ff = E.opaque("ff")
     r = E.call(S + ":FlagOp.cond", f, tf, ff, x)
-    ap = E.ctx.fn("apply1", U, U, U)
+    ap = (lambda f_, x_: E.ctx.fn("apply", U, U, U)(f_, E.I.ctx.fn("u_cons", U, U, U)(x_, E.z3.Const("u_nil", U))))
     xt = E.I.to_u(x)
     E.prove("C20.FlagOp.cond.branch", E.eq(r, UVal(z3.If(f.t, ap(tf.t, xt), ap(ff.t, xt)))))
     E.refutable("staging.flagop.cond", E.eq(r, UVal(ap(tf.t, xt))))
@@ -82,7 +82,7 @@ def _mswitch_task(n):
         fs = [E.opaque(f"f{k}") for k in range(n)]
         xs = [(E.real(f"x{k}"),) for k in range(n)]
         r = E.call(S + ":multi_switch", idx, fs, xs)
-        ap = E.ctx.fn("apply1", U, U, U)
+        ap = (lambda f_, x_: E.ctx.fn("apply", U, U, U)(f_, E.I.ctx.fn("u_cons", U, U, U)(x_, E.z3.Const("u_nil", U))))
         zl = E.ctx.fn("zeros_like", U, U)
         clamp = z3.If(idx.t < 0, 0, z3.If(idx.t > n - 1, n - 1, idx.t))
         E.prove(f"C20.multi_switch.n{n}.length", len(r) == n)
